@@ -79,12 +79,10 @@ Definition checkThrH (c : ThrH) : list nat :=
   then [] else [1%nat].
 
 (* ------------------------------------------------ ISTA / FISTA, real *)
-Definition gram (n : nat) (A : list (list Qc)) : list (list Qc) :=
-  let cols := transpose QcR n A in map (fun ci => map (fun cj => dotu QcR ci cj) cols) cols.
-Definition idm (n : nat) : list (list Qc) := map (fun i => unit QcR n i) (seq 0 n).
+(* exact certificate of the step-size premise: PSD.premise_of_psd turns
+   [premise_ok n A alpha = true] into  forall d, alpha ||A d||^2 <= ||d||^2 *)
 Definition premise_ok (n : nat) (A : list (list Qc)) (alpha : Qc) : bool :=
-  negb (Qcleb alpha 0) &&
-  psd QcO n (map2 (fun ri gi => map2 (fun a b => a - alpha * b) ri gi) (idm n) (gram n A)).
+  negb (Qcleb alpha 0) && psd QcO n (stepmat QcO n alpha A).
 Fixpoint mono (fs : list Qc) : bool :=
   match fs with
   | a :: t => match t with b :: _ => Qcleb b (a + tol12 * (1 + Qcabs' a)) && mono t | [] => true end
